@@ -231,7 +231,7 @@ theorem C12_same_backend (a : Access κ ε ν) (d₁ d₂ d₃ : Digest) (v : ν
   -- the only call of findMissing on a singleton
   have hcalls := findMissing_calls a [d₃]
   have hnd : ((findMissing a [d₃]).1.map fun c => match c with
-      | Call.fm i _ => i | Call.get i _ => i | Call.put i _ => i).Nodup := by
+      | Call.fm i _ => i | Call.get i _ => i | Call.put i _ => i | Call.getc i _ _ => i).Nodup := by
     unfold findMissing
     simp only [List.map_map]
     exact asked_nodup (shardOf a.sel) a.keys.length [d₃]
@@ -389,5 +389,40 @@ example (ds : List Digest) :
         fm := fun i qs => if i = 1 then .error 14 else .ok qs }
     ∀ d ∈ ds, shardOf a.sel d < a.keys.length :=
   fun d _ => C12_route_valid _ [(⟨5, 1, "a"⟩ : Entry String), ⟨3, 2, "b"⟩] rfl rfl d
+
+/-- **Composite reads.** `GetFromComposite(parent, child)` makes exactly one call, on the backend
+the selector assigns to the **parent** digest - the same backend `Get` addresses for any digest
+agreeing with the parent on the first eight hash bytes - whatever the child digest is; both
+digests are passed on unchanged, results pass through, errors carry that shard's key. -/
+theorem C12_composite_by_parent (a : Access κ ε ν) (p c d : Digest)
+    (h : p.hashBytes.take 8 = d.hashBytes.take 8) :
+    (getFromCompositeOp a p c).1 = [Call.getc (shardOf a.sel p) p c] ∧
+    (∃ i, (getFromCompositeOp a p c).1 = [Call.getc i p c] ∧ (getOp a d).1 = [Call.get i d]) ∧
+    (∀ e, a.getc (shardOf a.sel p) p c = .error e →
+      (getFromCompositeOp a p c).2 = .error (a.keys[shardOf a.sel p]?, e)) ∧
+    (∀ r, a.getc (shardOf a.sel p) p c = .ok r → (getFromCompositeOp a p c).2 = .ok r) := by
+  refine ⟨rfl, ⟨shardOf a.sel p, rfl, ?_⟩, ?_, ?_⟩
+  · show [Call.get (shardOf a.sel d) d] = _
+    rw [C12_only_hash a.sel p d h]
+  · intro e he
+    simp [getFromCompositeOp, annotate, he]
+  · intro r hr
+    simp [getFromCompositeOp, annotate, hr]
+
+/-! ## 4. Ties between the hand model and the regenerated loop body / constructor record
+
+`BB.Gen.Rendezvous` also carries the body of the `GetShard` loop (`shardScore`, `takes`) and the
+three fields of the `rendezvousShard` record the constructor appends (`ctorWeight`, `ctorIndex`,
+`ctorHash`), translated from /repo on every run.  The model's `rscore`, the strict `>` of `step`
+and the record built by `selOf` are these, by `rfl`; a change of the Go code (another mixing, a
+non-strict comparison, a weight that is rescaled before it is stored, ...) makes the translator
+fail or these proofs fail. -/
+
+theorem C12_getshard_body (w : UInt32) (i : Int) (kh h c b : UInt64) :
+    shardScore ⟨w, i, kh⟩ h = rscore h kh w ∧ takes c b = decide (c > b) := ⟨rfl, rfl⟩
+
+/-- The constructor stores weight, position and key hash unchanged. -/
+theorem C12_ctor_record (i : Int) (w : UInt32) (h : UInt64) :
+    ctorWeight i w h = w ∧ ctorIndex i w h = i ∧ ctorHash i w h = h := ⟨rfl, rfl, rfl⟩
 
 end BB.C12
